@@ -633,7 +633,11 @@ def b_execute(tmpl, expected, counts):
             counts["compile"] += 1
             stage, val, t = mako_run(tmpl, {}, env, imports=IMPORTS_DECL)
             if stage != "ok":
-                res = (classify_exc(val), "%s: %s" % (exc_class(val), str(val)[:200]))
+                # a block that raises natively has to raise the same class (at import for <%! %>, else while rendering)
+                if not (expected == "EXC:" + exc_class(val) and classify_exc(val).startswith("raises:")):
+                    res = (classify_exc(val), "%s: %s" % (exc_class(val), str(val)[:200]))
+            elif expected.startswith("EXC:"):
+                res = ("value", "renders %s where the native block raises %s" % (val.strip()[:120], expected[4:]))
             else:
                 got = val.replace("\r\n", "\n").strip("\n")
                 if got != expected:
@@ -644,9 +648,15 @@ def b_execute(tmpl, expected, counts):
 
 
 def b_native(lines):
+    """the observable variables after native exec of the unindented block; 'EXC:<class>' when the block itself raises
+    (e.g. a variable re-used with another type): the template then has to raise the same class"""
     env = dict(_state["env"])
     src = BL.PREAMBLE + "\n" + BL.native_source(lines) + "\n__r19 = " + BL.OBSERVE + "\n"
-    exec(compile(src, "<c19-block>", "exec"), env)
+    code = compile(src, "<c19-block>", "exec")
+    try:
+        exec(code, env)
+    except Exception as e:  # noqa
+        return "EXC:" + exc_class(e)
     return env["__r19"]
 
 
@@ -1334,10 +1344,14 @@ def replay(case):
     if case["part"] == "b":
         env = dict(S["env"])
         src = BL.PREAMBLE + "\n" + case["native"] + "\n__r19 = " + BL.OBSERVE + "\n"
-        exec(compile(src, "<c19-block>", "exec"), env)
-        res = b_execute(case["template"], env["__r19"], {"lex": 0, "compile": 0, "shared": 0})
+        try:
+            exec(compile(src, "<c19-block>", "exec"), env)
+            expected = env["__r19"]
+        except Exception as e:  # noqa
+            expected = "EXC:" + exc_class(e)
+        res = b_execute(case["template"], expected, {"lex": 0, "compile": 0, "shared": 0})
         if res is not None:
-            return False, "reproduced: %r (native %s)" % (res, env["__r19"])
+            return False, "reproduced: %r (native %s)" % (res, expected)
         return True, "holds"
     if case["part"] == "c":
         res = c_judge(case["case"], case["removed"], case["bound"], case["free"], case.get("pos", ""))
